@@ -131,6 +131,11 @@ func getKit() (*tlsKit, error) {
 		fca, fcaKey, _, _ := makeCert(valid("foreign-ca", true, false, false), 9, nil, nil)
 		_, key, der, _ = makeCert(valid("localhost", false, true, false), 10, fca, fcaKey)
 		k.Clients["foreign-ca"] = []tls.Certificate{tlsCert(key, der)}
+		// right CA, wrong name, followed by an unrelated self-made end-entity certificate
+		// that carries the configured name (the handshake verifies the first certificate only)
+		_, key, der, _ = makeCert(valid("other", false, true, false), 11, ca, caKey)
+		_, _, forgedDER, _ := makeCert(valid("localhost", false, true, false), 12, nil, nil)
+		k.Clients["wrong-name+forged-extra"] = []tls.Certificate{tlsCert(key, der, forgedDER)}
 		k.Clients["none"] = nil
 
 		work := os.Getenv("VERIF_WORK")
